@@ -29,8 +29,14 @@ DIR_KINDS = ('dir', 'continues', 'listnp', 'empty_dir', 'empty_listnp', 'dir_lin
 
 
 def run_one(rng, res: CaseResult):
-    spec = S.gen_spec(rng, FEAT)
-    root = S.gen_root(rng, spec, FEAT)
+    if rng.random() < 0.15:
+        # one multi-config file: a composing part mounts the other parts (same task classes, other values) under their names
+        spec, proots = S.parts_spec(rng, {'composing_part': True})
+        root = {'file': proots[0]['file'], 'part': 'all'}
+        res.count('composing_part_roots')
+    else:
+        spec = S.gen_spec(rng, FEAT)
+        root = S.gen_root(rng, spec, FEAT)
     root.pop('namespace', None)
     # a config name with a dot in its stem
     if rng.random() < 0.3:
@@ -104,6 +110,21 @@ def run_one(rng, res: CaseResult):
             res.count('name_mode_trouble_not_judged')
             return
         old_has = r1['steps'][hd_at]['has_data']
+        if rng.random() < 0.25:
+            # a group / task directory of the source lives on another volume and is linked into the data directory
+            import os
+            import shutil
+            # (not directories holding relative links of their own: moving those would break the links, which is the harness' doing)
+            tops = [p_ for p_ in sorted((lab.root / 'src_data').iterdir()) if p_.is_dir() and not p_.is_symlink() and not any(q_.is_symlink() for q_ in p_.rglob('*'))] \
+                if (lab.root / 'src_data').exists() else []
+            if tops:
+                t_ = rng.choice(tops)
+                vol = lab.root / 'volume'
+                vol.mkdir(exist_ok=True)
+                shutil.move(str(t_), str(vol / t_.name))
+                os.symlink(vol / t_.name, t_)
+                res.count('sources_with_a_symlinked_directory')
+                witness['symlinked_source_directory'] = t_.name
         src_before = lab.tree_hash('src_data')
         mig = {'op': 'migrate', 'root': root, 'target_name': 'target', 'data_dir_name': 'src_data'}
         if rng.random() < 0.4:
